@@ -78,18 +78,21 @@ OptSoundAt(c) ==
       now == Value(ToX(Opt(an.n)), c.a, c.b)
   IN an.ok /\ was[1] # "run" /\ (was[1] = "v" => now = was)
 
-\* slice SLICE of NSL (by position in an arbitrary but fixed enumeration); every STRIDE-th case of the slice
-Cases == IF IOEnv.WHICH = "fold" THEN SetToSeq(FoldCases) ELSE SetToSeq(OptCases)
-Mine == LET n == Len(Cases)  S == atoi(IOEnv.SLICE)  NS == atoi(IOEnv.NSL)  ST == atoi(IOEnv.STRIDE) IN
-        {i \in 1..n : i % NS = S /\ (i \div NS) % ST = 0}
-Init == case \in {Cases[i] : i \in Mine}
+\* slice SLICE of NSL (by position in an arbitrary but fixed enumeration); every STRIDE-th member of the slice.  The rewriting cases are
+\* sliced by TREE, so that a process only ever builds its own share of the quarter of a million cases
+SliceOf(n) == LET S == atoi(IOEnv.SLICE)  NS == atoi(IOEnv.NSL)  ST == atoi(IOEnv.STRIDE) IN {i \in 1..n : i % NS = S /\ (i \div NS) % ST = 0}
+Trees == SetToSeq(D1 \cup D2)
+FoldCaseSeq == SetToSeq(FoldCases)
+MineSet == IF IOEnv.WHICH = "fold" THEN {FoldCaseSeq[i] : i \in SliceOf(Len(FoldCaseSeq))}
+           ELSE {[t |-> "opt", tree |-> Trees[i], a |-> v[1], b |-> v[2]] : i \in SliceOf(Len(Trees)), v \in Vals}
+Init == case \in MineSet
 Next == UNCHANGED case
 Sound == IF case.t = "opt" THEN OptSoundAt(case) ELSE FoldSoundAt(case)
 \* the same judgement in one evaluation, with the number of cases XLang defines (vacuity)
 Defined(c) == IF c.t = "bin" THEN Value([k |-> "bin", op |-> c.op, l |-> [k |-> "var", n |-> "x"], r |-> [k |-> "var", n |-> "y"]], c.a, c.b)[1] = "v"
               ELSE IF c.t = "un" THEN Value([k |-> "un", op |-> c.op, e |-> [k |-> "var", n |-> "x"]], c.a, c.b)[1] = "v"
               ELSE Value(Plain(c.tree), c.a, c.b)[1] = "v"
-Report == LET mine == {Cases[i] : i \in Mine}
+Report == LET mine == MineSet
               bad == {c \in mine : ~(IF c.t = "opt" THEN OptSoundAt(c) ELSE FoldSoundAt(c))}
           IN [cases |-> Cardinality(mine), defined |-> Cardinality({c \in mine : Defined(c)}), unsound |-> Cardinality(bad),
               example |-> IF bad = {} THEN "" ELSE ToString(CHOOSE c \in bad : TRUE)]
